@@ -71,7 +71,7 @@ func nodeScenario(t *testing.T, out *vh.Out, wd *watchdog, kind string) {
 	quiet := func(d time.Duration) {
 		time.Sleep(d)
 		synctest.Wait()
-		out.Emit(M{"e": "quiet", "blocked": r.blocked(), "buf": r.tr.VerifBufLen(), "wpos": g.wpos()})
+		r.quiet(r.tr.VerifBufLen(), g.wpos())
 		wd.progress.Add(1)
 	}
 	ctx, cancel := context.WithCancel(context.Background())
